@@ -470,29 +470,37 @@ func (P *Prog) checkSegmentSource(r *Result) {
 					// must be extract #1 of the GetByField call whose #0 is stored into subCtx.Data
 					okSeg := false
 					for _, v := range vals {
-						ex, ok := v.(*ssa.Extract)
+						// (the lookup may sit in a closure or helper that returns both results:
+						// `data, pathKey := source(field, key, ptr)` with source = func(...) { return dp.GetByField(field, key) })
+						iv, undo := resultThroughCallee(cv(v))
+						ex, ok := iv.(*ssa.Extract)
 						if !ok || ex.Index != 1 {
+							undo()
 							continue
 						}
 						call, ok := ex.Tuple.(*ssa.Call)
 						if !ok || callOf(call).invoke == nil || callOf(call).invoke.Name() != "GetByField" {
+							undo()
 							continue
 						}
-						// data store (anywhere in the region)
-						lr.each(func(_ *regionPart, _ *ssa.BasicBlock, in2 ssa.Instruction) {
-							if st, ok := in2.(*ssa.Store); ok {
-								if _, f := fieldVar(st.Addr); f != nil && sameField(f, R.FData) {
-									if e0, ok := cv(st.Val).(*ssa.Extract); ok && e0.Tuple == ssa.Value(call) && e0.Index == 0 {
-										okSeg = true
-									}
-								}
-							}
-						})
 						// the fallback argument of GetByField must be the schema key of this iteration
 						fb := call.Call.Args[1]
 						if !valueDerivesFrom(fb, l.key, 8) {
 							problems = append(problems, "GetByField is not given this field's schema key as fallback")
 						}
+						undo()
+						// data store (anywhere in the region)
+						lr.each(func(_ *regionPart, _ *ssa.BasicBlock, in2 ssa.Instruction) {
+							if st, ok := in2.(*ssa.Store); ok {
+								if _, f := fieldVar(st.Addr); f != nil && sameField(f, R.FData) {
+									dv, undo2 := resultThroughCallee(cv(st.Val))
+									if e0, ok := dv.(*ssa.Extract); ok && e0.Tuple == ssa.Value(call) && e0.Index == 0 {
+										okSeg = true
+									}
+									undo2()
+								}
+							}
+						})
 					}
 					if !okSeg || len(vals) != 1 {
 						problems = append(problems, "the path segment is not the key returned by the same GetByField call that produced the field's data")
@@ -503,8 +511,21 @@ func (P *Prog) checkSegmentSource(r *Result) {
 					okKey, okTag := false, false
 					var judge func(v ssa.Value, depth int)
 					judge = func(v ssa.Value, depth int) {
+						if iv, undo := resultThroughCallee(v); iv != v {
+							if depth < 3 {
+								judge(iv, depth+1)
+							}
+							undo()
+							return
+						}
 						if valueDerivesFrom(v, l.key, 8) {
 							okKey = true
+						}
+						// the library's own key resolution with no source tag: zog tag, else the fallback (C10/tag-priority)
+						if c2, ok := cv(v).(*ssa.Call); ok {
+							if g := callOf(c2).static; g != nil && fname(g) == "zog/internals.GetKeyFromField" && len(c2.Call.Args) == 3 && isNilConst(cv(c2.Call.Args[2])) && valueDerivesFrom(c2.Call.Args[1], l.key, 8) {
+								okKey, okTag = true, true
+							}
 						}
 						if ex, ok := cv(v).(*ssa.Extract); ok && ex.Index == 0 {
 							if call, ok := ex.Tuple.(*ssa.Call); ok {
@@ -555,6 +576,62 @@ func (P *Prog) checkSegmentSource(r *Result) {
 		}
 	}
 	r.floor("C10/segment-source", 1)
+}
+
+// resultThroughCallee: v is (an element of) the result of a call of a module closure or unexported helper that is
+// known under the substitution in force and has a single return: the value it returns there, with the callee's
+// parameters bound to the call's arguments (on top of the current substitution) until undo is called. Otherwise v.
+func resultThroughCallee(v ssa.Value) (ssa.Value, func()) {
+	noop := func() {}
+	idx := 0
+	var call *ssa.Call
+	switch x := cv(v).(type) {
+	case *ssa.Extract:
+		c, ok := x.Tuple.(*ssa.Call)
+		if !ok {
+			return v, noop
+		}
+		call, idx = c, x.Index
+	case *ssa.Call:
+		call = x
+	default:
+		return v, noop
+	}
+	ci := callOf(call)
+	if ci.static == nil || ci.static.Blocks == nil || !inModule(funcPkgPath(ci.static)) {
+		return v, noop
+	}
+	callee := ci.static
+	if callee.Parent() == nil && !formulaHelper(callee) {
+		return v, noop
+	}
+	var ret *ssa.Return
+	n := 0
+	eachInstr(callee, func(_ *ssa.BasicBlock, _ int, in ssa.Instruction) {
+		if rt, ok := in.(*ssa.Return); ok {
+			ret = rt
+			n++
+		}
+	})
+	if n != 1 {
+		return v, noop
+	}
+	vals, ok := retVals(ret)
+	if !ok || idx >= len(vals) {
+		return v, noop
+	}
+	saved := substEnv
+	env := map[ssa.Value]ssa.Value{}
+	for k, v2 := range saved {
+		env[k] = v2
+	}
+	for k, prm := range callee.Params {
+		if k < len(call.Call.Args) {
+			env[prm] = call.Call.Args[k]
+		}
+	}
+	substEnv = env
+	return cv(vals[idx]), func() { substEnv = saved }
 }
 
 // valueDerivesFrom: v equals x or is a load of a local that was stored x.
